@@ -297,11 +297,7 @@ fn consume_rules_with_spans(
 
             pairs.next().unwrap(); // opening_brace
 
-            // skip initial infix operators
-            let mut inner_nodes = pairs.next().unwrap().into_inner().peekable();
-            if inner_nodes.peek().unwrap().as_rule() == Rule::choice_operator {
-                inner_nodes.next().unwrap();
-            }
+            let inner_nodes = pairs.next().unwrap().into_inner().peekable();
 
             let node = consume_expr(inner_nodes, &pratt)?;
 
@@ -364,9 +360,15 @@ fn peek_slice_index(pair: &Pair<'_, Rule>) -> Result<i32, Vec<Error<Rule>>> {
 }
 
 fn consume_expr<'i>(
-    pairs: Peekable<Pairs<'i, Rule>>,
+    mut pairs: Peekable<Pairs<'i, Rule>>,
     pratt: &PrattParser<Rule>,
 ) -> Result<ParserNode<'i>, Vec<Error<Rule>>> {
+    // `expression = { choice_operator? ~ term ~ .. }`: skip the optional leading `|`, also in
+    // nested expressions such as `( | a | b )` and `PUSH( | a )`.
+    if pairs.peek().map(|pair| pair.as_rule()) == Some(Rule::choice_operator) {
+        pairs.next();
+    }
+
     fn unaries<'i>(
         mut pairs: Peekable<Pairs<'i, Rule>>,
         pratt: &PrattParser<Rule>,
